@@ -10,6 +10,24 @@ def assigned(cp):
     return unicodedata.category(chr(cp)) not in ("Cn", "Cs")
 
 
+def decomp_noreorder(s):
+    """full canonical decomposition of every character, without canonical reordering (what wcsfc_s documents: 'technically only FCD')"""
+    out = []
+    def rec(ch):
+        cp = ord(ch)
+        if 0xAC00 <= cp < 0xD7A4:
+            si = cp - 0xAC00; out.append(0x1100 + si // 588); out.append(0x1161 + (si % 588) // 28)
+            if si % 28: out.append(0x11A7 + si % 28)
+            return
+        d = unicodedata.decomposition(ch)
+        if d and not d.startswith("<"):
+            for x in d.split(): rec(chr(int(x, 16)))
+        else:
+            out.append(cp)
+    for ch in s: rec(ch)
+    return out
+
+
 def gen_cases(tier, seed):
     """yields (class, [code points]) restricted to code points assigned in this Python's UCD"""
     rnd = random.Random(seed)
@@ -97,6 +115,22 @@ def check(exe, tier, seed, nworkers=8):
             i, mode, kind = int(f[0]), int(f[1]), int(f[2])
             cls, cps = mine[i]
             s = "".join(chr(c) for c in cps)
+            if mode == 2:
+                with lock:
+                    counters["driver_calls"] += 1; counters["fold_strings"] = counters.get("fold_strings", 0) + 1
+                w = dict(harness="uni", input=" ".join("%04X" % c for c in cps), form="fold", replay="uni --mode norm")
+                wantf = decomp_noreorder(s.casefold())
+                short = ("+".join("%04X" % c for c in cps)) if len(cps) <= 2 else cls
+                if f[3].startswith("FAULT"):
+                    add("C17|fold-fence-fault|%s|%s" % (f[3], cls), "wcsfc_s on %s faults (%s at offset %s) with an ample destination" % (w["input"], f[3], f[4]), w); continue
+                rc, ln_ = int(f[3]), int(f[4]); got = [int(x, 16) for x in f[5:]]
+                if rc != 0:
+                    add("C17|fold-valid-input-rejected|%s|rc=%d" % (short if len(cps) <= 1 else cls, rc), "wcsfc_s on %s returns %d with an ample destination" % (w["input"], rc), w)
+                elif got != wantf:
+                    add("C17|fold-differs-from-decomposed-full-case-folding|%s" % short, "wcsfc_s on %s gives %s, canonical decomposition of str.casefold() (UCD %s) gives %s" % (w["input"], " ".join("%04X" % c for c in got), UCD, " ".join("%04X" % c for c in wantf)), w)
+                elif ln_ != len(got):
+                    add("C17|fold-reported-length-wrong|%s" % cls, "wcsfc_s on %s stores %d characters but reports *lenp=%d" % (w["input"], len(got), ln_), w)
+                continue
             form = "NFC" if mode else "NFD"
             want = [ord(c) for c in unicodedata.normalize(form, s)]
             dk = "minimal-dmax" if kind == 0 else "ample-dmax"
